@@ -52,6 +52,20 @@ def run(ctx):
     from harness import netscen
     base = netscen.all_digests(ctx.seed)
     nnet = len(base)
+    # "executing the same simulation program twice, in the same ... interpreter process ... yields an identical observable
+    # trace": every scenario is executed a second time in this process (the stochastic ones - lossy Wire, REDPort, RandomDemux -
+    # re-seed `random` at their start, as the program does); other simulations, stochastic ones included, ran in between
+    stats = dict(netscen.STATS)
+    again_net = netscen.all_digests(ctx.seed)
+    nnet += len(again_net)
+    for k in base:
+        if base[k] != again_net.get(k):
+            res['oracle_failures'].append({'what': f'network scenario {k}: the second execution of the same seeded program in the same interpreter '
+                                                   f'process gave a different delivery trace (first run: {stats.get(k)} packets sent/delivered, '
+                                                   f'second run: {netscen.STATS.get(k)})',
+                                           'signature': 'not-reproducible-net', 'case': {'scenario': k, 'seed': ctx.seed, 'executions': 2}})
+    res['coverage']['stochastic_scenarios'] = len(stats)
+    res['coverage']['stochastic_scenarios_with_loss'] = sum(1 for a, b in stats.values() if 0 < b < a)
     for hs in seeds:
         env = dict(os.environ, PYTHONHASHSEED=str(hs), PYTHONPATH=f'{VERIF}:{REPO}')
         r = subprocess.run([sys.executable, '-m', 'harness.netscen', str(ctx.seed)], capture_output=True, text=True, env=env, timeout=900, cwd=VERIF)
